@@ -91,7 +91,7 @@ static void one_pattern(const char *code, int maxn2, int maxn3)
 	build(&a, code, &root);
 	a.root = root;
 	print(code, pat);
-	nv_guard(300, "c13-hang", "pattern=\"%s\"", nv_esc(pat, -1));
+	nv_guard(800, "c13-hang", "pattern=\"%s\"", nv_esc(pat, -1));
 	for (ic = 0; ic < 2; ic++) {
 		xic = ic;
 		for (nl = 1; nl <= 3; nl++) {
